@@ -32,7 +32,7 @@ from props._graph_terms import FUNCS, build, gen_legacy_graph, jsexp, node_sexp,
 PROP = "C16"
 READY = True
 DRIVER = "dm_graph"
-LEAN_MODULES = ["DaskModel.Props.C16"]
+LEAN_MODULES = ["DaskModel.Props.C16", "DaskModel.Props.C16xCloneKeys"]
 LEVEL_TEXT = ("Lean 4 theorems, for all inputs, over executable models that are diffed against the real functions. "
               "(1) Key regeneration: clone_values (injective renaming rho: rho(k) denotes in the renamed graph what k denotes in the "
               "original, through aliases, TaskRefs, nested tasks/containers/kwargs), clone_keys_disjoint, bind_values / bind_waits. "
@@ -774,6 +774,29 @@ def _lazify_sig(op, r, child):
     return None
 
 
+import contextlib
+
+
+@contextlib.contextmanager
+def _record_clone_keys(layers):
+    """record the `keys` argument of every `Layer.clone` / `Blockwise.clone` call made inside the block (the only place
+    where `_bind_one`'s local `clone_keys` leaves the function)"""
+    seen, saved = [], []
+    for c in {c for l in layers for c in type(l).__mro__ if "clone" in vars(c)}:
+        orig = vars(c)["clone"]
+
+        def wrap(self, keys, seed, bind_to=None, _orig=orig):
+            seen.append(frozenset(keys))
+            return _orig(self, keys, seed, bind_to)
+        saved.append((c, orig))
+        setattr(c, "clone", wrap)
+    try:
+        yield seen
+    finally:
+        for c, orig in saved:
+            setattr(c, "clone", orig)
+
+
 def case_bind_layers(ctx, inp):
     """`_bind_one`'s layer bookkeeping: `layers` / `dependencies` of the HighLevelGraph that the real `bind` / `clone`
     returns, against the model `bindOne` (real `clone_key` as a finite map; `is_bound` per layer from the real
@@ -812,6 +835,7 @@ def case_bind_layers(ctx, inp):
     else:
         omit_layers = set()
         omit_keys = {k for o in omit for k in o.__dask_graph__()}
+    omit_layers0, omit_keys0 = set(omit_layers), set(omit_keys)
     # the key set `_bind_one` hands to every `layer.clone`
     clone_keys = dsk.get_all_external_keys() - omit_keys
     for ln in omit_layers:
@@ -828,10 +852,11 @@ def case_bind_layers(ctx, inp):
             ctx.fail(f"layer.clone raised on a layer of the child: {type(e).__name__}: {str(e)[:100]}")
             return
     try:
-        if parent is None:
-            r = clone(child, omit=omit or None, seed=seed, assume_layers=al)
-        else:
-            r = bind(child, parent, omit=omit or None, seed=seed, assume_layers=al, split_every=se)
+        with _record_clone_keys(dsk.layers.values()) as seen_keys:
+            if parent is None:
+                r = clone(child, omit=omit or None, seed=seed, assume_layers=al)
+            else:
+                r = bind(child, parent, omit=omit or None, seed=seed, assume_layers=al, split_every=se)
     except Exception as e:
         ctx.fail(f"{inp['op']} raised: {type(e).__name__}: {str(e)[:120]}")
         return
@@ -839,6 +864,37 @@ def case_bind_layers(ctx, inp):
     if not isinstance(h, HighLevelGraph):
         ctx.fail("the result's graph is not a HighLevelGraph")
         return
+    # ---- `clone_keys` / effective `omit_layers` (head of `_bind_one`) against the model cloneKeysOf / omitLayersOf
+    #      (Props/C16xCloneKeys): the model's key set vs the `keys=` argument the real call handed to `layer.clone`; the
+    #      model's omitted layer names are what `bind_one` below runs with (so they are diffed through the real result) ----
+    kid = {}
+    ext_i = sorted([kid.setdefault(k, len(kid)) for k in dsk.get_all_external_keys()])
+    ok_i = sorted([kid.setdefault(k, len(kid)) for k in omit_keys0])
+    outs_i = [[n, sorted([kid.setdefault(k, len(kid)) for k in layer.get_output_keys()])] for n, layer in dsk.layers.items()]
+    mk = ctx.lean(Sym("clone_keys"), ext_i, ok_i, sorted(omit_layers0), outs_i)
+    if not (isinstance(mk, list) and len(mk) == 2):
+        ctx.disagree("clone_keys: the model did not answer", mk, None)
+        return
+    if not seen_keys:
+        ctx.fail("the real call never reached layer.clone")
+        return
+    if len(set(seen_keys)) != 1:
+        ctx.fail("_bind_one handed different key sets to different layers")
+        return
+    ctx.eq("_bind_one: clone_keys handed to layer.clone", sorted(mk[0]), sorted(kid[k] for k in seen_keys[0]))
+    if set(mk[1]) != set(omit_layers):
+        ctx.disagree("omit_layers: model vs the reference computation of the harness", sorted(mk[1]), sorted(omit_layers))
+    omit_layers = set(mk[1])
+    if len(mk[0]) < len(ext_i):
+        ctx.branch("clone_keys:some-keys-kept")
+    if omit_layers0 - set(dsk.layers):
+        ctx.branch("clone_keys:omitted-layer-not-in-graph")
+    if omit_layers0 & set(dsk.layers):
+        ctx.branch("clone_keys:omitted-layer-in-graph")
+    if omit_keys0 and omit_layers:
+        ctx.branch("clone_keys:assume_layers=False-layer-added")
+    if omit_keys0 and not omit_layers:
+        ctx.branch("clone_keys:assume_layers=False-nothing-omitted")
     names = list(dsk.layers)
     rho = {n: clone_key(n, seed) for n in names}
     inv = {v: k for k, v in rho.items()}
